@@ -30,6 +30,19 @@ type Case struct {
 	B    V      `json:"b"`
 	TA   vkit.B `json:"text_a,omitempty"`
 	TB   vkit.B `json:"text_b,omitempty"`
+	// Setting names the ComparePreRelease replacement active for the case ("" = library default).
+	Setting string `json:"compare_pre_release_setting,omitempty"`
+}
+
+func applySetting(name string) func() {
+	old := sem.ComparePreRelease
+	switch name {
+	case "reversed":
+		sem.ComparePreRelease = func(a, b string) int { return -sem.DefaultComparePreRelease(a, b) }
+	case "case-insensitive":
+		sem.ComparePreRelease = func(a, b string) int { return sem.DefaultComparePreRelease(strings.ToLower(a), strings.ToLower(b)) }
+	}
+	return func() { sem.ComparePreRelease = old }
 }
 
 func (v V) ver() sem.Ver {
@@ -201,6 +214,7 @@ func TestCheck(t *testing.T) {
 		if err := r.LoadReplay(&c); err != nil {
 			t.Fatalf("replay: %v", err)
 		}
+		defer applySetting(c.Setting)()
 		r.Serial(func(w *vkit.W) { judge(c, w); w.Eval(true) })
 		return
 	}
@@ -212,6 +226,7 @@ func TestCheck(t *testing.T) {
 		if err := json.Unmarshal(raw, &c); err != nil {
 			return err
 		}
+		defer applySetting(c.Setting)()
 		judge(c, w)
 		w.Eval(true)
 		return nil
@@ -245,6 +260,55 @@ func TestCheck(t *testing.T) {
 		})
 	})
 	r.Exhaustive(fmt.Sprintf("order laws on all ordered pairs of the %d-element universe", n))
+
+	// Phase A2: ComparePreRelease is a package setting. Under a replacement comparator the same laws must hold, in particular
+	// Latest and the string helpers must follow what Compare says (they must not bypass the setting).
+	r.Phase("A2: order laws and helper agreement under replaced ComparePreRelease settings (reversed, case-insensitive), then restored", func() {
+		old := sem.ComparePreRelease
+		defer func() { sem.ComparePreRelease = old }()
+		small := append(ref.PreUniverse("01aB-.", 3), mixed...)
+		m := int64(len(small))
+		for name, cmp := range map[string]func(a, b string) int{
+			"reversed":         func(a, b string) int { return -sem.DefaultComparePreRelease(a, b) },
+			"case-insensitive": func(a, b string) int { return sem.DefaultComparePreRelease(strings.ToLower(a), strings.ToLower(b)) },
+		} {
+			_ = name
+			sem.ComparePreRelease = cmp
+			r.Parallel(m*m, m, func(w *vkit.W, lo, hi int64) {
+				for k := lo; k < hi; k++ {
+					a, b := small[k/m], small[k%m]
+					c := Case{Kind: "pair", A: V{Major: 1, Pre: a}, B: V{Major: 1, Pre: b}, Setting: name}
+					judge(c, w)
+					w.Eval(ntPair(c))
+					if k%7 == 0 {
+						h := Case{Kind: "helper", TA: vkit.B("1.0.0-" + a), TB: vkit.B("v1.0.0-" + b), Setting: name}
+						if a == "" {
+							h.TA = "1.0.0"
+						}
+						if b == "" {
+							h.TB = "v1.0.0"
+						}
+						judge(h, w)
+						w.Eval(true)
+					}
+				}
+			})
+		}
+		sem.ComparePreRelease = old
+		// restored: a sample of the same pairs again under the default setting (stale results must not survive)
+		r.Parallel(m*m, m, func(w *vkit.W, lo, hi int64) {
+			for k := lo; k < hi; k++ {
+				c := Case{Kind: "pair", A: V{Major: 1, Pre: small[k/m]}, B: V{Major: 1, Pre: small[k%m]}, Setting: "default-after-replacement"}
+				judge(c, w)
+				if want := ref.ComparePre(c.A.Pre, c.B.Pre); !ref.PinnedDeparture(c.A.Pre, c.B.Pre) {
+					if got := c.A.ver().Compare(c.B.ver()); got != want {
+						w.Fail(c, "stale-order-after-setting-restored", fmt.Sprintf("after ComparePreRelease was replaced and restored, (%s).Compare(%s) = %d, section 11 says %d", c.A.text(), c.B.text(), got, want))
+					}
+				}
+				w.Eval(ntPair(c))
+			}
+		})
+	})
 
 	r.Phase("B: Next* on every universe version x boundary components", func() {
 		comps := []uint64{0, 1, max64 - 1, max64}
